@@ -12,10 +12,14 @@ import (
 	"os"
 	"os/exec"
 	"runtime"
+	"sort"
 	"strings"
 	"sync"
 	"time"
 
+	dtpb "github.com/google/fhir/go/proto/google/fhir/proto/r4/core/datatypes_go_proto"
+	opb "github.com/google/fhir/go/proto/google/fhir/proto/r4/core/resources/observation_go_proto"
+	ppb "github.com/google/fhir/go/proto/google/fhir/proto/r4/core/resources/patient_go_proto"
 	"github.com/verily-src/fhirpath-go/fhirpath"
 	"github.com/verily-src/fhirpath-go/fhirpath/compopts"
 	"github.com/verily-src/fhirpath-go/fhirpath/evalopts"
@@ -40,11 +44,30 @@ func tzInput() []fhir.Resource {
 	return []fhir.Resource{mustResource(`{"resourceType":"Patient","id":"p","birthDate":"1980-03-09","extension":[{"url":"u","valueDateTime":"2020-03-08T01:30:00-05:00"},{"url":"v","valueDateTime":"2020-04-04T10:00:00+13:45"}]}`)}
 }
 
+// elements built in code, whose zone string is empty
+func tzBuiltInput() []fhir.Resource {
+	day := time.Date(2000, 3, 22, 0, 0, 0, 0, time.UTC).UnixMicro()
+	sec := time.Date(2000, 3, 22, 1, 30, 5, 0, time.UTC).UnixMicro()
+	return []fhir.Resource{&ppb.Patient{Id: fhir.ID("b"), BirthDate: &dtpb.Date{ValueUs: day, Precision: dtpb.Date_DAY},
+		Deceased: &ppb.Patient_DeceasedX{Choice: &ppb.Patient_DeceasedX_DateTime{DateTime: &dtpb.DateTime{ValueUs: sec, Precision: dtpb.DateTime_SECOND}}},
+		Meta:     &dtpb.Meta{LastUpdated: &dtpb.Instant{ValueUs: sec, Precision: dtpb.Instant_SECOND}},
+		Extension: []*dtpb.Extension{{Url: fhir.URI("m"), Value: &dtpb.Extension_ValueX{Choice: &dtpb.Extension_ValueX_DateTime{DateTime: &dtpb.DateTime{ValueUs: day, Precision: dtpb.DateTime_MONTH}}}},
+			{Url: fhir.URI("d"), Value: &dtpb.Extension_ValueX{Choice: &dtpb.Extension_ValueX_Date{Date: &dtpb.Date{ValueUs: day, Precision: dtpb.Date_YEAR}}}}}}}
+}
+
+var tzBuiltPrograms = []string{"Patient.birthDate", "Patient.birthDate.toString()", "Patient.birthDate = @2000-03-22", "Patient.birthDate.value", "Patient.birthDate + 1 day", "Patient.deceased", "Patient.deceased.toString()",
+	"Patient.deceased.value", "Patient.deceased.toDate()", "Patient.deceased = @2000-03-22T01:30:05Z", "Patient.deceased < @2000-03-22T02:00:00+00:00", "Patient.meta.lastUpdated", "Patient.meta.lastUpdated.toString()", "Patient.meta.lastUpdated.value",
+	"Patient.extension.value", "Patient.extension.value.toString()", "Patient.extension.value.value", "Patient.extension.value.toDateTime()", "Patient.descendants().toString()"}
+
 func runTZProbe(c *Ctx) {
 	in := tzInput()
 	for _, src := range tzPrograms {
 		o := compileEval(src, in)
 		fmt.Printf("TZPROBE\t%s\t%s\n", src, canonOutcome(o, nil))
+	}
+	for _, src := range tzBuiltPrograms {
+		o := compileEval(src, tzBuiltInput())
+		fmt.Printf("TZPROBE\t(elements without a zone) %s\t%s\n", src, canonOutcome(o, nil))
 	}
 	// un-overridden clock: the readings must be UTC readings whatever the process zone is
 	for try := 0; try < 3; try++ {
@@ -75,6 +98,51 @@ func runTZProbe(c *Ctx) {
 
 // orderJobs: (expression, resource) pairs over resources of many types that share element names
 // (contact, link, entry, participant ... are nested components of several resource types).
+// orderExtra: jobs whose outcome must not depend on earlier ones although they reach the same code with
+// different values of one message type: value[x] holders handed over as variables, and navigation that
+// keeps the holder (Permissive).
+type extraJob struct {
+	src   string
+	in    []fhir.Resource
+	env   []fhirpath.EvaluateOption
+	copts []fhirpath.CompileOption
+	label string
+}
+
+func orderExtra() []extraJob {
+	obs := func(js string) []fhir.Resource { return []fhir.Resource{mustResource(js)} }
+	oq := obs(`{"resourceType":"Observation","status":"final","code":{"text":"c"},"valueQuantity":{"value":1,"unit":"mg"}}`)
+	os_ := obs(`{"resourceType":"Observation","status":"final","code":{"text":"c"},"valueString":"s"}`)
+	ob := obs(`{"resourceType":"Observation","status":"final","code":{"text":"c"},"valueBoolean":true}`)
+	holders := map[string]fhir.Base{
+		"Observation.value[x]=Quantity": &opb.Observation_ValueX{Choice: &opb.Observation_ValueX_Quantity{Quantity: &dtpb.Quantity{Value: &dtpb.Decimal{Value: "1"}}}},
+		"Observation.value[x]=string":   &opb.Observation_ValueX{Choice: &opb.Observation_ValueX_StringValue{StringValue: fhir.String("s")}},
+		"Extension.value[x]=boolean":    &dtpb.Extension_ValueX{Choice: &dtpb.Extension_ValueX_Boolean{Boolean: fhir.Boolean(true)}},
+		"Extension.value[x]=Coding":     &dtpb.Extension_ValueX{Choice: &dtpb.Extension_ValueX_Coding{Coding: &dtpb.Coding{Code: fhir.Code("c")}}},
+		"Patient.deceased[x]=boolean":   &ppb.Patient_DeceasedX{Choice: &ppb.Patient_DeceasedX_Boolean{Boolean: fhir.Boolean(false)}},
+		"Patient.deceased[x]=dateTime":  &ppb.Patient_DeceasedX{Choice: &ppb.Patient_DeceasedX_DateTime{DateTime: &dtpb.DateTime{ValueUs: 1, Timezone: "Z", Precision: dtpb.DateTime_SECOND}}},
+	}
+	var hn []string
+	for n := range holders {
+		hn = append(hn, n)
+	}
+	sort.Strings(hn)
+	var out []extraJob
+	for _, n := range hn {
+		for _, src := range []string{"%v is Quantity", "%v is string", "%v is boolean", "%v is Coding", "%v is dateTime", "(%v as Quantity).exists()", "%v.ofType(string).exists()", "%v.ofType(boolean)", "%v.toString()", "%v = %v", "%v.children().count()"} {
+			out = append(out, extraJob{src: src, in: oq, env: []fhirpath.EvaluateOption{evalopts.EnvVariable("v", holders[n])}, label: "%v=" + n})
+		}
+	}
+	for li, in := range [][]fhir.Resource{oq, os_, ob} {
+		for _, src := range []string{"Observation.value is Quantity", "Observation.value is string", "Observation.value is boolean", "Observation.value as Quantity", "Observation.value.ofType(string)", "Observation.value", "Observation.value.toString()",
+			"Observation.children().select($this is Quantity)", "Observation.descendants().ofType(Quantity).count()"} {
+			out = append(out, extraJob{src: src, in: in, copts: []fhirpath.CompileOption{compopts.Permissive()}, label: fmt.Sprintf("permissive, observation %d", li)})
+			out = append(out, extraJob{src: src, in: in, label: fmt.Sprintf("observation %d", li)})
+		}
+	}
+	return out
+}
+
 func orderJobs() (srcs []string, inputs [][]fhir.Resource) {
 	r := &RNG{s: 424242}
 	g := &ResGen{r: r, maxDepth: 2, density: 70}
@@ -99,6 +167,12 @@ func orderJobs() (srcs []string, inputs [][]fhir.Resource) {
 // n>1 a permutation) in this fresh process and prints one line per job.
 func runOrderProbe(c *Ctx) {
 	srcs, inputs := orderJobs()
+	extra := orderExtra()
+	nPlain := len(srcs)
+	for _, x := range extra {
+		srcs = append(srcs, x.src+" ["+x.label+"]")
+		inputs = append(inputs, x.in)
+	}
 	order := make([]int, len(srcs))
 	for i := range order {
 		order[i] = i
@@ -112,7 +186,19 @@ func runOrderProbe(c *Ctx) {
 		order = (&RNG{s: c.seed * 7919}).Perm(len(order))
 	}
 	for _, j := range order {
-		o := compileEval(srcs[j], inputs[j])
+		var o Outcome
+		if j >= nPlain {
+			x := extra[j-nPlain]
+			o = safeEval(func() (system.Collection, error) {
+				e, err := fhirpath.Compile(x.src, x.copts...)
+				if err != nil {
+					return nil, fmt.Errorf("compile: %w", err)
+				}
+				return e.Evaluate(x.in, x.env...)
+			})
+		} else {
+			o = compileEval(srcs[j], inputs[j])
+		}
 		out := canonOutcome(o, nil)
 		if o.Err == nil && !o.Panicked && len(o.Coll) > 1 {
 			// a digest of the VALUES reached (the System value of every primitive), not only of the shape
@@ -183,9 +269,13 @@ func runC04(c *Ctx) {
 				if p == "where" {
 					args = "true"
 				}
-				if _, err := fhirpath.Compile("Patient.name.given."+p+"("+args+")", opts...); err == nil {
+				_, err := fhirpath.Compile("Patient.name.given."+p+"("+args+")", opts...)
+				if err == nil {
 					vis = append(vis, p)
 				}
+				// MustCompile is Compile that panics on error: same visibility, same isolation
+				_, mpan, _ := safeErr(func() error { fhirpath.MustCompile("Patient.name.given."+p+"("+args+")", opts...); return nil })
+				c.Law(mpan == (err != nil), "C04/mustcompile-differs", "MustCompile accepts exactly what Compile with the same options accepts", "history "+strings.Join(callToks, "|")+": Patient.name.given."+p+"("+args+")", fmt.Sprintf("MustCompile panicked=%v, Compile error=%v", mpan, err))
 			}
 			outs = append(outs, strings.Join(vis, ","))
 		}
@@ -194,6 +284,10 @@ func runC04(c *Ctx) {
 		for _, p := range []string{"f1", "f2", "join"} {
 			_, err := fhirpath.Compile("Patient." + p + "()")
 			c.Law(err != nil, "C04/function-leaked", "a function registered through an option exists only in the expression being compiled", "after history "+strings.Join(callToks, "|")+": Patient."+p+"()", "compiled")
+		}
+		for _, p := range []string{"f1", "f2", "join"} {
+			_, mpan, _ := safeErr(func() error { fhirpath.MustCompile("Patient.name.given." + p + "()"); return nil })
+			c.Law(mpan, "C04/function-leaked", "a function registered through an option exists only in the expression being compiled", "after history "+strings.Join(callToks, "|")+": MustCompile(Patient.name.given."+p+"())", "compiled")
 		}
 		// ... and so does a later Compile that enables the experimental table
 		for _, p := range []string{"f1", "f2"} {
